@@ -126,6 +126,9 @@ def gen_product_case(rnd, item):
 
 def gen_random_case(rnd, spec):
     gen = {"accept_delay": rnd.choice([0.02, 0.05, 0.1]), "payloads": [], "services": [], "grace": 0.25}
+    meta_mode = rnd.random() < 0.2  # MetaRunner.run() driven directly: no service loop, hence no services
+    if meta_mode:
+        gen["mode"] = "meta"
     script = [["wait_running", 8]]
     crowd = rnd.choice([None, None, "asyncio", "trio", "threading"])  # many bystanders of one flavour
     for i in range(rnd.randint(5, 12) if crowd else rnd.randint(0, 5)):
@@ -141,12 +144,12 @@ def gen_random_case(rnd, spec):
         how, what, cls = rnd.choice(failure_kinds(flavour))
         if rnd.random() < 0.75:  # mostly the kinds with the strong clause
             how, what, cls = rnd.choice([k for k in failure_kinds(flavour) if k[2] == "exception"])
-        reg = rnd.choice(REGISTRATIONS)
+        reg = rnd.choice([r for r in REGISTRATIONS if not (meta_mode and r.startswith("service"))])
         place(gen, script, failing_payload("f%d" % i, flavour, how, what, delayed), reg, rnd)
         fails.append([flavour, how, what, cls, reg, delayed])
     script.append(["expect_end", PATIENCE])
     gen["script"] = script
-    return {"watchdog": 25, "inject": common.inject_conf(rnd, 0.8), "generations": [gen], "meta": {"kind": "random", "fail": fails}}
+    return {"watchdog": 25, "inject": common.inject_conf(rnd, 0.8), "generations": [gen], "meta": {"kind": "random", "fail": fails, "meta_runner": meta_mode}}
 
 
 def gen_control_case(rnd, spec):
@@ -190,6 +193,8 @@ def judge(case, run, result):
             result.count("scenarios_without_observed_failure")
         return []
     result.count("scenarios_with_failure")
+    if case["meta"].get("meta_runner"):
+        result.count("scenarios_driving_metarunner_directly")
     result.count("failures_observed", len(fails))
     first = min(e["seq"] for e in fails)
     specs = {"f%d" % i: f for i, f in enumerate(case["meta"]["fail"])}
@@ -260,7 +265,7 @@ def run_shard(spec):
 
 
 def finish(total, tier):
-    need = ["scenarios_with_failure", "strong_clause_checked", "base_clause_checked", "matched_exception", "matched_return", "control_scenarios"]
+    need = ["scenarios_with_failure", "scenarios_driving_metarunner_directly", "strong_clause_checked", "base_clause_checked", "matched_exception", "matched_return", "control_scenarios"]
     need += ["reg_" + r for r in REGISTRATIONS] + ["flavour_" + f for f in common.FLAVOURS]
     for name in need:
         if not total.counters.get(name) and not total.violations:
